@@ -23,8 +23,7 @@ from vlib import spec as S
 from vlib.outcome import capture
 
 import ovld
-from ovld import subclasscheck
-from ovld.types import normalize_type
+from vlib.api import normalize_type, subclasscheck
 
 CORPUS_EXTRA = ["int", "bool", "str", "list", "object", "float", "dict"]
 
